@@ -2,7 +2,9 @@ package rewriter
 
 import (
 	"go/ast"
+	"go/types"
 	"log"
+	"strings"
 
 	"github.com/goghcrow/go-ast-matcher"
 	"github.com/goghcrow/go-imports"
@@ -254,13 +256,77 @@ func (o *optimizer) etaReduction() {
 		return true
 	}
 
+	// eta reduction is sound only if $fun is a stable function value:
+	// a declared (package level) function, maybe instantiated,
+	// neither variable, method value, builtin, conversion nor call result,
+	// and the reduced func literal must have the identical type
+	stableFun := func(ctx astmatcher.Ctx, lit ast.Node, fun ast.Expr) bool {
+		callee := fun
+		switch idx := callee.(type) {
+		case *ast.IndexExpr:
+			callee = idx.X
+		case *ast.IndexListExpr:
+			callee = idx.X
+		}
+
+		var id *ast.Ident
+		generatedIter := false
+		switch x := callee.(type) {
+		case *ast.Ident:
+			id = x
+		case *ast.SelectorExpr:
+			xId, ok := x.X.(*ast.Ident)
+			if !ok {
+				return false
+			}
+			switch ctx.ObjectOf(xId).(type) {
+			case *types.PkgName:
+				id = x.Sel
+			case *types.Var:
+				// method value of the iterator variable generated by rewriter,
+				// which is assigned exactly once
+				generatedIter = callee == fun && strings.HasPrefix(xId.Name, cstIterVar)
+				if !generatedIter {
+					return false
+				}
+			default:
+				return false
+			}
+		default:
+			return false
+		}
+
+		if !generatedIter {
+			fn, ok := ctx.ObjectOf(id).(*types.Func)
+			if !ok {
+				return false
+			}
+			sig, ok := fn.Type().(*types.Signature)
+			if !ok || sig.Recv() != nil {
+				return false
+			}
+			// generic func called with inferred type arguments can't be a value
+			if sig.TypeParams().Len() > 0 && callee == fun {
+				return false
+			}
+		}
+
+		litExpr, ok := lit.(ast.Expr)
+		if !ok {
+			return false
+		}
+		litTy, funTy := ctx.TypeOf(litExpr), ctx.TypeOf(fun)
+		return litTy != nil && funTy != nil && types.Identical(litTy, funTy)
+	}
+
 	o.m.Match(
 		pattern,
 		func(c *astmatcher.Cursor, ctx astmatcher.Ctx) {
 			params := ctx.Binds["params"].(*ast.FieldList).List
 			args := ctx.Binds["args"].(ExprsNode)
-			if matched(ctx, params, args) {
-				c.Replace(ctx.Binds["fun"])
+			fun := ctx.Binds["fun"].(ast.Expr)
+			if matched(ctx, params, args) && stableFun(ctx, c.Node(), fun) {
+				c.Replace(fun)
 			}
 		},
 	)
